@@ -85,4 +85,45 @@ def Op.isObserver : Op → Bool
   | .register _ _ | .userData _ | .getters => true
   | _ => false
 
+/-! ## C20: the two charset configurations -/
+
+/-- the same tables, built with `RDSPARSER_DISABLE_UNICODE` -/
+def Cfg.narrow (cfg : Cfg) : Cfg := { cfg with unicode := false }
+/-- the same tables, default (wide character) build -/
+def Cfg.wide (cfg : Cfg) : Cfg := { cfg with unicode := true }
+
+/-- a narrow-build cell seen as a wide-build cell: the raw byte mapped through the charset table
+(the end-of-text marker 0 stays 0) -/
+def embedCell (cfg : Cfg) (c : Cell) : Cell := if c.ch = 0 then c else ⟨cfg.g0 c.ch, c.lvl⟩
+def embedText (cfg : Cfg) (t : Text) : Text := t.map (embedCell cfg)
+def embedState (cfg : Cfg) (s : State) : State :=
+  { s with ps := embedText cfg s.ps, rt0 := embedText cfg s.rt0, rt1 := embedText cfg s.rt1,
+           ptyn := embedText cfg s.ptyn }
+
+/-- what C20 needs of the charset table on 0x20..0x7E: space maps to space, no printable maps to the
+end-of-text marker, and the table is injective there (`C20_g0_ascii`/`C20_g0_injective_ascii` prove it of
+the regenerated table) -/
+def G0Ascii (cfg : Cfg) : Prop :=
+  cfg.g0 0x20 = 0x20 ∧ (∀ b, 0x20 ≤ b → b ≤ 0x7E → cfg.g0 b ≠ 0) ∧
+  (∀ b c, 0x20 ≤ b → b ≤ 0x7E → 0x20 ≤ c → c ≤ 0x7E → cfg.g0 b = cfg.g0 c → b = c)
+
+/-- no byte ≥ 0x7F is presented (addressed to a text cell, accepted or not) by this group -/
+def Group.asciiOnly (g : Group) : Bool := (addressed g).all (fun a => a.2.2.1 < 0x7F)
+
+def Op.asciiOnly (op : Op) : Bool :=
+  match op.group? with
+  | some g => g.asciiOnly
+  | none => true
+
+/-- which cells have been received -/
+def recvMask (t : Text) : List Bool := t.map (fun c => c.lvl != 10)
+
+/-- everything of a state except the characters and levels of the texts -/
+def nonText (s : State) : Scalars × Scalars × Settings × Int × List Bool × Nat × List (List Bool) :=
+  (s.used, s.temp, s.set, s.lastRt, s.cbs, s.ud, [recvMask s.ps, recvMask s.rt0, recvMask s.rt1, recvMask s.ptyn])
+
+/-- kinds of the callbacks other than the three text callbacks, in order -/
+def nonTextKinds (evs : List Event) : List EvKind :=
+  (evs.map (·.kind)).filter (fun k => match k with | .ps | .rt _ | .ptyn => false | _ => true)
+
 end RDS
